@@ -1,19 +1,19 @@
-\* one client, root + 2 child tasks, 4 contexts, depth 3, 3 wire requests: repaired propagation, the property holds
+\* one client, up to 4 child tasks, for -simulate
 SPECIFICATION Spec
 CONSTANTS
-  Tasks <- T3
+  Tasks <- T5
   Roots <- R1
-  MaxCtx = 4
-  MaxWire = 3
+  MaxCtx = 7
+  MaxWire = 7
   MaxDepth = 3
-  MaxKids = 2
-  MaxChunks = 0
+  MaxKids = 3
+  MaxChunks = 1
   MinMaxPropagation = TRUE
-VIEW view
 INVARIANT TypeOK
 INVARIANT PointerIsScope
 INVARIANT SpanStart
 INVARIANT SpanEnd
 INVARIANT LeafExact
+INVARIANT Nesting
 PROPERTY NoLeak
 CHECK_DEADLOCK FALSE
